@@ -10,7 +10,6 @@ A *case* is ``{"dialect", "sql", "rules", "rule_configs"?, "origin"?, "mutated"?
 """
 from __future__ import annotations
 
-import functools
 import re
 
 from hypothesis import strategies as st
@@ -345,18 +344,18 @@ def fix_case(draw, tier="quick", rules=None, mutate=None, gsql_weight=2, fixture
     return c
 
 
-@functools.lru_cache(None)
-def known_dialects():
-    return gens.dialects()
-
-
 def base_labels(case):
-    labs = ["dialect:" + case.get("dialect", "ansi"), "rules:" + (case.get("rules") if case.get("rules") in RULESETS
-                                                                   else "single" if "," not in str(case.get("rules"))
-                                                                   else "list")]
-    labs.append("origin:" + ("gsql" if case.get("origin") == "gsql" else "fixture-mutated" if case.get("mutated")
-                             else "fixture"))
-    return labs
+    r = str(case.get("rules"))
+    if r in RULESETS:
+        rl = r
+    elif re.fullmatch(r"[A-Z]{2}\d\d", r):
+        rl = "single"
+    elif "," in r:
+        rl = "list"
+    else:
+        rl = "group:" + r
+    origin = "gsql" if case.get("origin") == "gsql" else "fixture-mutated" if case.get("mutated") else "fixture"
+    return ["dialect:" + case.get("dialect", "ansi"), "rules:" + rl, "origin:" + origin]
 
 
 # --------------------------------------------------------------------------- where did it happen
